@@ -82,12 +82,23 @@ def case_st(draw):
             arr[ln - 1 - i // 8] |= 1 << (i % 8)
         bm = bytes(arr)
     pre = draw(st.lists(st.integers(0, 1023), max_size=4))
-    return {"ca": ca, "len": ln, "bitmap": bm, "si4": draw(st.sampled_from([0, 1])), "pre": pre}
+    # an earlier decode of another (valid) bitmap on the same frequency array, as when SI4 is received again
+    first = draw(st.one_of(st.none(), st.none(), st.binary(min_size=0, max_size=8)))
+    return {"ca": ca, "len": ln, "bitmap": bm, "si4": draw(st.sampled_from([0, 1])), "pre": pre, "first": first}
 
 
 def oracle(case):
     ca, ln, bm, si4, pre = case["ca"], case["len"], bytes(case["bitmap"]), case["si4"], case["pre"]
     line = "%d %d %s %d %s | %d %s" % (si4, ln, bm.hex() if ln else "-", len(ca), " ".join(map(str, ca)), len(pre), " ".join(map(str, pre)))
+    first = case.get("first")
+    if first is not None:
+        first = bytes(first)
+        line += " | %d %s" % (len(first), first.hex() if first else "-")
+        if not si4:
+            pass                      # without si4 the flags are never touched, by either call
+        elif ln > 8:
+            pre = sorted(set(ref_ma.decode(ca, first)))     # the rejected second call leaves the first call's flags
+        # (with si4 and a valid second bitmap the flags are exactly the second result: checked below)
     try:
         out = drv().request(line)
     except cbuild.DriverCrash as c:
